@@ -139,11 +139,18 @@ func (c *FnCtx) evalBuiltin(st *State, call *ast.CallExpr, name string) []*Term 
 		elemT := types.Unalias(c.typeOf(call)).Underlying().(*types.Slice).Elem()
 		n := c.sliceLen(s)
 		arr := c.sliceArr(s)
+		var vs []*Term
 		for i, a := range call.Args[1:] {
 			v := c.convertTo(st, c.eval(st, a), c.typeOf(a), elemT)
 			arr = mkStore(arr, mkAdd(n, intLit(int64(i))), v)
+			vs = append(vs, v)
 		}
-		return []*Term{c.mkSlice(s.Sort, mkAdd(n, intLit(int64(len(call.Args)-1))), arr).withGo(c.typeOf(call))}
+		r := c.nameSlice(st, c.mkSlice(s.Sort, mkAdd(n, intLit(int64(len(call.Args)-1))), arr), "app")
+		for i, v := range vs {
+			st.assume(mkEq(c.sliceAt(r, mkAdd(n, intLit(int64(i)))), v))
+		}
+		c.appendContainsFacts(st, r, s, vs)
+		return []*Term{r.withGo(c.typeOf(call))}
 	case "make":
 		t := c.typeOf(call.Args[0])
 		switch u := types.Unalias(t).Underlying().(type) {
@@ -231,7 +238,7 @@ func (c *FnCtx) sliceConcat(st *State, a, b *Term) *Term {
 	c.quantN++
 	i := fmt.Sprintf("ci!%d", c.quantN)
 	iv := leaf(i, SInt)
-	st.assume(mkForall([]Bound{{i, SInt}}, mkImplies(mkAnd(mkLe(intLit(0), iv), mkLt(iv, la)), mkEq(c.sliceAt(r, iv), c.sliceAt(a, iv))), []*Term{c.sliceAt(r, iv)}))
+	st.assume(mkForall([]Bound{{i, SInt}}, mkImplies(mkAnd(mkLe(intLit(0), iv), mkLt(iv, la)), mkEq(c.sliceAt(r, iv), c.sliceAt(a, iv))), []*Term{c.sliceAt(r, iv)}, []*Term{c.sliceAt(a, iv)}))
 	c.quantN++
 	j := fmt.Sprintf("cj!%d", c.quantN)
 	jv := leaf(j, SInt)
@@ -241,6 +248,10 @@ func (c *FnCtx) sliceConcat(st *State, a, b *Term) *Term {
 	k := fmt.Sprintf("ck!%d", c.quantN)
 	kv := leaf(k, SInt)
 	st.assume(mkForall([]Bound{{k, SInt}}, mkImplies(mkAnd(mkLe(la, kv), mkLt(kv, mkAdd(la, lb))), mkEq(c.sliceAt(r, kv), c.sliceAt(b, mkSub(kv, la)))), []*Term{c.sliceAt(r, kv)}))
+	// membership (for the axiomatised contains)
+	es := c.ts.elemSort(r.Sort)
+	x := leaf("ax!x", es)
+	st.assume(mkForall([]Bound{{x.Op, es}}, mkEq(c.seqContains(r, x), mkOr(c.seqContains(a, x), c.seqContains(b, x))), []*Term{c.seqContains(r, x)}, []*Term{c.seqContains(a, x)}, []*Term{c.seqContains(b, x)}))
 	return r
 }
 
@@ -558,4 +569,26 @@ func (c *FnCtx) havocLocation(st *State, loc *SExpr, env map[string]*Term, pre *
 	for _, hl := range c.locHeaps(pre, loc, env) {
 		c.heapWrite(st, hl.name, hl.sort, hl.ref, c.smt.freshConst("hv", hl.sort))
 	}
+}
+
+// nameSlice gives a constructed sequence a name, so that facts about its elements stay visible to E-matching.
+func (c *FnCtx) nameSlice(st *State, v *Term, hint string) *Term {
+	r := c.smt.freshConst(hint, v.Sort)
+	st.pc = append(st.pc, mkEq(r, v))
+	return r
+}
+
+// appendContainsFacts: membership in r = append(s, vs...) (consequences of the definition, stated for the
+// axiomatised `contains` so that E-matching finds them).
+func (c *FnCtx) appendContainsFacts(st *State, r, s *Term, vs []*Term) {
+	es := c.ts.elemSort(r.Sort)
+	x := leaf("ax!x", es)
+	in := func(sq *Term) *Term { return c.seqContains(sq, x) }
+	var eqs []*Term
+	for _, v := range vs {
+		eqs = append(eqs, mkEq(x, v))
+		st.assume(c.seqContains(r, v))
+	}
+	st.assume(mkForall([]Bound{{x.Op, es}}, mkImplies(in(s), in(r)), []*Term{in(s)}))
+	st.assume(mkForall([]Bound{{x.Op, es}}, mkImplies(in(r), mkOr(append([]*Term{in(s)}, eqs...)...)), []*Term{in(r)}))
 }
